@@ -117,7 +117,7 @@ PROPS['C02'] = dict(
          '(C02_replay_on_wire_any_transport); C02_replay_example / C02_replay_hyps_met compute a case with all three queues '
          'non-empty. That the broker then answers and the handles complete is part of C16.')
 PROPS['C03'] = dict(
-    sess=[('sess_c03', 300, 4000)],
+    sess=[('sess_c03', 300, 4000), ('py_c03', 200, 3000)],
     events='w', state=['ret', 'rel', 'conn', 'gen', 'h', 'quota'],
     monitors=[M.mon_c03, M.mon_c02, M.mon_c05_replay],
     title='QoS 2 outbound exchange is exactly-once',
